@@ -26,6 +26,11 @@ pub enum MOp {
     Asset0SetTime { dt: u64 },
     ResetTv,
     Reload { mode: u8 },
+    /// every all-asset and per-asset query is read (and the values discarded): a read at a
+    /// particular moment must not matter for anything that happens later
+    Observe,
+    /// a book operation applied to one asset's book directly, through `get_order_book_mut(a)`
+    BookMut { a: usize, op: Op },
 }
 
 #[derive(Clone, Debug, PartialEq, Eq, Hash)]
@@ -165,6 +170,16 @@ impl<const A: usize, const L: usize> World<A, L> {
                 }
                 Ok((Ret::Unit, Ret::Unit))
             }
+            MOp::Observe => {
+                let _ = self.check_queries();
+                Ok((Ret::Unit, Ret::Unit))
+            }
+            MOp::BookMut { a, op } => {
+                let st = Step { dt: 0, op: op.clone() };
+                let sret = apply_real(&mut self.shadows[*a], &st);
+                let mret = apply_real(self.market.get_order_book_mut(*a), &st);
+                Ok((mret, sret))
+            }
             MOp::Reload { mode } => {
                 let r: Result<Market<A, L>, String> = match mode {
                     0 => serde_json::to_string(&self.market)
@@ -283,6 +298,9 @@ pub struct MCfg {
     /// zero-volume placements and modifications (an unusual but accepted input; the oracle is
     /// the stand-alone book of the same library, so no semantics of our own are imposed)
     pub zero_vols: bool,
+    /// "read everything" as an operation, and placements / cancels applied to an asset's book
+    /// directly through get_order_book_mut
+    pub observe_and_book_mut: bool,
 }
 
 fn alphabet<const A: usize>(cfg: &MCfg, shadows: &[Snap], trading: bool) -> Vec<MStep> {
@@ -354,6 +372,17 @@ fn alphabet<const A: usize>(cfg: &MCfg, shadows: &[Snap], trading: bool) -> Vec<
     for &mode in &cfg.reload_modes {
         v.push(MOp::Reload { mode });
     }
+    if cfg.observe_and_book_mut {
+        v.push(MOp::Observe);
+        for a in 0..A {
+            let tick = TICKS[a % 4];
+            v.push(MOp::BookMut { a, op: Op::Limit { bid: true, price: 2 * tick, vol: 2 } });
+            v.push(MOp::BookMut { a, op: Op::Limit { bid: false, price: 3 * tick, vol: 2 } });
+            for id in 0..shadows[a].orders.len() {
+                v.push(MOp::BookMut { a, op: Op::Cancel { id, ev: false } });
+            }
+        }
+    }
     v.into_iter()
         .map(|op| {
             let dt = if matches!(op, MOp::SetTime { dt: 0 }) { 0 } else { 1 };
@@ -389,7 +418,7 @@ fn judge<const A: usize, const L: usize>(w: &World<A, L>, s: &MStep, rets: &(Ret
             ));
         }
     }
-    if let MOp::Asset { a, .. } = &s.op {
+    if let MOp::Asset { a, .. } | MOp::BookMut { a, .. } = &s.op {
         for b in 0..A {
             if b != *a {
                 let mut x = after_m[b].clone();
@@ -416,6 +445,8 @@ fn kind(op: &MOp) -> &'static str {
         MOp::Asset0SetTime { .. } => "asset-0-set-time",
         MOp::ResetTv => "reset-trade-vols",
         MOp::Reload { .. } => "reload",
+        MOp::Observe => "observe",
+        MOp::BookMut { .. } => "book-mut",
     }
 }
 
@@ -576,40 +607,46 @@ fn absorb(out: &mut Outcome, label: &str, assets: usize, levels: usize, depth: u
 
 /// C14, market level
 pub fn c14_market_part(out: &mut Outcome, t: bool) {
-    let full = MCfg { depth: if t { 5 } else { 4 }, reload_modes: vec![], events: false, toggles: true, modify: true, create_place: false, offgrid: true, two_vols: false, asset_toggles: false, zero_vols: false };
+    let full = MCfg { depth: if t { 5 } else { 4 }, reload_modes: vec![], events: false, toggles: true, modify: true, create_place: false, offgrid: true, two_vols: false, asset_toggles: false, zero_vols: false, observe_and_book_mut: false };
     absorb(out, "Market<2>: ops x assets, modify, toggles, off-grid", 2, 3, full.depth, run_market::<2, 3>(&full), "market");
-    let ev = MCfg { depth: if t { 4 } else { 3 }, reload_modes: vec![], events: true, toggles: true, modify: true, create_place: true, offgrid: true, two_vols: true, asset_toggles: false, zero_vols: false };
+    let ev = MCfg { depth: if t { 4 } else { 3 }, reload_modes: vec![], events: true, toggles: true, modify: true, create_place: true, offgrid: true, two_vols: true, asset_toggles: false, zero_vols: false, observe_and_book_mut: false };
     absorb(out, "Market<2>: + event route, create/place, two volumes", 2, 3, ev.depth, run_market::<2, 3>(&ev), "market");
-    let a1 = MCfg { depth: if t { 5 } else { 4 }, reload_modes: vec![], events: false, toggles: true, modify: true, create_place: true, offgrid: false, two_vols: true, asset_toggles: false, zero_vols: false };
+    let a1 = MCfg { depth: if t { 5 } else { 4 }, reload_modes: vec![], events: false, toggles: true, modify: true, create_place: true, offgrid: false, two_vols: true, asset_toggles: false, zero_vols: false, observe_and_book_mut: false };
     absorb(out, "Market<1>", 1, 3, a1.depth, run_market::<1, 3>(&a1), "market");
-    let a3 = MCfg { depth: if t { 5 } else { 4 }, reload_modes: vec![], events: false, toggles: true, modify: false, create_place: false, offgrid: true, two_vols: false, asset_toggles: false, zero_vols: false };
+    let a3 = MCfg { depth: if t { 5 } else { 4 }, reload_modes: vec![], events: false, toggles: true, modify: false, create_place: false, offgrid: true, two_vols: false, asset_toggles: false, zero_vols: false, observe_and_book_mut: false };
     absorb(out, "Market<3>: three ticks", 3, 2, a3.depth, run_market::<3, 2>(&a3), "market");
-    let z = MCfg { depth: if t { 5 } else { 4 }, reload_modes: vec![], events: false, toggles: false, modify: true, create_place: false, offgrid: false, two_vols: false, asset_toggles: false, zero_vols: true };
+    let z = MCfg { depth: if t { 5 } else { 4 }, reload_modes: vec![], events: false, toggles: false, modify: true, create_place: false, offgrid: false, two_vols: false, asset_toggles: false, zero_vols: true, observe_and_book_mut: false };
     absorb(out, "Market<2>: zero-volume placements and modifications", 2, 3, z.depth, run_market::<2, 3>(&z), "market");
-    let at = MCfg { depth: if t { 4 } else { 3 }, reload_modes: vec![], events: false, toggles: true, modify: true, create_place: false, offgrid: false, two_vols: false, asset_toggles: true, zero_vols: false };
+    let at = MCfg { depth: if t { 4 } else { 3 }, reload_modes: vec![], events: false, toggles: true, modify: true, create_place: false, offgrid: false, two_vols: false, asset_toggles: true, zero_vols: false, observe_and_book_mut: false };
     absorb(out, "Market<3>: per-asset toggles through get_order_book_mut", 3, 2, at.depth, run_market::<3, 2>(&at), "market");
-    let many = MCfg { depth: if t { 3 } else { 2 }, reload_modes: vec![], events: false, toggles: true, modify: true, create_place: false, offgrid: false, two_vols: false, asset_toggles: true, zero_vols: false };
+    let many = MCfg { depth: if t { 3 } else { 2 }, reload_modes: vec![], events: false, toggles: true, modify: true, create_place: false, offgrid: false, two_vols: false, asset_toggles: true, zero_vols: false, observe_and_book_mut: false };
     absorb(out, "Market<12,2>: two-digit asset counts", 12, 2, many.depth, run_market::<12, 2>(&many), "market");
-    let a4 = MCfg { depth: if t { 4 } else { 3 }, reload_modes: vec![], events: false, toggles: true, modify: true, create_place: false, offgrid: true, two_vols: false, asset_toggles: false, zero_vols: false };
+    // reads at chosen moments (histories are otherwise replayed without a single query in between)
+    // and mutations that bypass the market's own entry points
+    let ob = MCfg { depth: if t { 5 } else { 4 }, reload_modes: vec![], events: false, toggles: false, modify: false, create_place: false, offgrid: false, two_vols: false, asset_toggles: false, zero_vols: false, observe_and_book_mut: true };
+    absorb(out, "Market<2>: reading as an operation, placements and cancels through get_order_book_mut", 2, 3, ob.depth, run_market::<2, 3>(&ob), "market");
+    let ob3 = MCfg { depth: if t { 4 } else { 3 }, reload_modes: vec![0], events: false, toggles: true, modify: true, create_place: false, offgrid: false, two_vols: false, asset_toggles: false, zero_vols: false, observe_and_book_mut: true };
+    absorb(out, "Market<3,2>: reading as an operation, get_order_book_mut, modify, reload", 3, 2, ob3.depth, run_market::<3, 2>(&ob3), "market");
+    let a4 = MCfg { depth: if t { 4 } else { 3 }, reload_modes: vec![], events: false, toggles: true, modify: true, create_place: false, offgrid: true, two_vols: false, asset_toggles: false, zero_vols: false, observe_and_book_mut: false };
     absorb(out, "Market<4>: four ticks", 4, 3, a4.depth, run_market::<4, 3>(&a4), "market");
 }
 
 /// C13, market level: market-wide and per-asset trading toggles against stand-alone books
 pub fn c13_market_part(out: &mut Outcome, t: bool) {
-    let c = MCfg { depth: if t { 5 } else { 4 }, reload_modes: vec![], events: false, toggles: false, modify: true, create_place: false, offgrid: false, two_vols: false, asset_toggles: true, zero_vols: false };
+    let c = MCfg { depth: if t { 5 } else { 4 }, reload_modes: vec![], events: false, toggles: false, modify: true, create_place: false, offgrid: false, two_vols: false, asset_toggles: true, zero_vols: false, observe_and_book_mut: false };
     absorb(out, "Market<2,3>: market-wide and per-asset toggles at every point", 2, 3, c.depth, run_market::<2, 3>(&c), "market");
-    let c = MCfg { depth: if t { 4 } else { 3 }, reload_modes: vec![], events: false, toggles: false, modify: false, create_place: false, offgrid: false, two_vols: false, asset_toggles: true, zero_vols: false };
+    let c = MCfg { depth: if t { 4 } else { 3 }, reload_modes: vec![], events: false, toggles: false, modify: false, create_place: false, offgrid: false, two_vols: false, asset_toggles: true, zero_vols: false, observe_and_book_mut: false };
     absorb(out, "Market<3,2>: market-wide and per-asset toggles", 3, 2, c.depth, run_market::<3, 2>(&c), "market");
 }
 
 /// C07, multi-asset snapshots: reload as an operation, shadows are never reloaded
 pub fn c07_market_part(out: &mut Outcome, t: bool) {
-    let c2 = MCfg { depth: if t { 5 } else { 4 }, reload_modes: vec![0, 1, 2], events: false, toggles: true, modify: true, create_place: true, offgrid: false, two_vols: false, asset_toggles: false, zero_vols: false };
+    let c2 = MCfg { depth: if t { 5 } else { 4 }, reload_modes: vec![0, 1, 2], events: false, toggles: true, modify: true, create_place: true, offgrid: false, two_vols: false, asset_toggles: false, zero_vols: false, observe_and_book_mut: false };
     absorb(out, "Market<2,3>: reload (memory/compact/pretty) as an operation", 2, 3, c2.depth, run_market::<2, 3>(&c2), "market-reload");
-    let c3 = MCfg { depth: if t { 4 } else { 3 }, reload_modes: vec![0, 2], events: false, toggles: true, modify: true, create_place: false, offgrid: false, two_vols: false, asset_toggles: false, zero_vols: false };
+    let c3 = MCfg { depth: if t { 4 } else { 3 }, reload_modes: vec![0, 2], events: false, toggles: true, modify: true, create_place: false, offgrid: false, two_vols: false, asset_toggles: false, zero_vols: false, observe_and_book_mut: false };
     absorb(out, "Market<3,2>: reload as an operation", 3, 2, c3.depth, run_market::<3, 2>(&c3), "market-reload");
     // two-digit asset counts
-    let c12 = MCfg { depth: if t { 3 } else { 2 }, reload_modes: vec![0, 1], events: false, toggles: true, modify: false, create_place: false, offgrid: false, two_vols: false, asset_toggles: false, zero_vols: false };
+    let c12 = MCfg { depth: if t { 3 } else { 2 }, reload_modes: vec![0, 1], events: false, toggles: true, modify: false, create_place: false, offgrid: false, two_vols: false, asset_toggles: false, zero_vols: false, observe_and_book_mut: false };
     absorb(out, "Market<12,2>: reload as an operation", 12, 2, c12.depth, run_market::<12, 2>(&c12), "market-reload");
     absorb(out, "Market<25,1>: reload as an operation", 25, 1, 2, run_market::<25, 1>(&MCfg { depth: 2, ..c12 }), "market-reload");
 }
